@@ -160,7 +160,7 @@ impl SignBus for SharedVBus {
 }
 
 pub fn eval_case(line: &str) -> String {
-    let t: Vec<&str> = line.split(' ').collect();
+    let t: Vec<&str> = line.split(' ').filter(|s| !s.is_empty()).collect();
     match t[0] {
         "ENC" | "ENCB" => {
             let f = mkframe(num(t[1]), num(t[2]), bytes_of_hex(t[3]), t[0] == "ENCB");
@@ -262,10 +262,12 @@ pub fn eval_case(line: &str) -> String {
             }
         }
         "PG" => eval_pg(&t),
-        "VS" => {
+        "VS" | "VSL" => {
+            let last_only = t[0] == "VSL";
             let mut s = VirtualSign::new(Address(num(t[1])), style_of_str(t[2]));
             let mut out = String::new();
-            for m in &t[3..] {
+            let n = t.len() - 3;
+            for (i, m) in t[3..].iter().enumerate() {
                 let msg = msg_of_str(m);
                 match guarded(|| s.process_message(&msg)) {
                     None => {
@@ -273,7 +275,9 @@ pub fn eval_case(line: &str) -> String {
                         break;
                     }
                     Some(r) => {
-                        out.push_str(&format!("{}/{} ", str_omsg(&r), obs(&s)));
+                        if !last_only || i + 1 == n {
+                            out.push_str(&format!("{}/{} ", str_omsg(&r), obs(&s)));
+                        }
                     }
                 }
             }
